@@ -15,7 +15,7 @@ IMPORTS = ("From Coq Require Import String.\nFrom Ford Require Import Base.Str B
            "Sem.CascadeTypes Sem.Cascade Sem.CascadeSpec Sem.CascadeTree Corr.C01 Corr.C01cascade.")
 THEOREMS = ["C01_cascade_tables", "C01_dispatch", "C01_dispatch_examples", "C01_dispatch_fixed_final",
             "C01_dispatch_fixed_end_blockdata", "C01_dispatch_fixed_labelled_end", "C01_assignment_fixed_interface",
-            "C01_dispatch_fixed_program_inside_unit"]
+            "C01_dispatch_fixed_program_inside_unit", "C01_text_roundtrip", "C01_text_roundtrip_example"]
 PROPS_FILE = "theories/Props/C01cascade.v"
 BUILD_TARGETS = ["theories/Corr/C01cascade.vo", "theories/Props/C01cascade.vo"]
 TRANSLATORS = ["t_c01_cascade.py"]
@@ -325,9 +325,28 @@ def run_files(chk, n, stats):
         terms.append(f"({coq_str(f['name'])}, {coq_list(coq_str(l) for l in lines)}, {impl})")
         cases.append((text, res[0]))
         chk.count(("file-lines", text), nontrivial=len(lines) > 6, sample=None)
+    # the spelled file of C01_text_roundtrip_example (Sem/CascadeTextProofs.v), written to disk and parsed by FORD
+    ex = chk.coq_eval(IMPORTS + "\nFrom Ford Require Import Sem.CascadeText Sem.CascadeTextProofs.",
+                      "map string_of_list_ascii (file_text example_text_units)")
+    ex_lines = L.parse_coq_strings(ex) if not ex.startswith("COQ-ERROR") else []
+    chk.obligation("text-roundtrip-example-rendered", len(ex_lines) > 30, ex[-600:])
+    if ex_lines:
+        text = "\n".join(ex_lines) + "\n"
+        res = TR.parse_text(text, "t.f90")
+        rd = RD.run_reader(ex_lines)
+        lines = [l for l in rd[1] if not (l.startswith("!!") and l[2:].strip() == "")] if rd[0] == "ok" else []
+        chk.obligation("text-roundtrip-example-read", rd[0] == "ok" and lines == ex_lines,
+                       "the reader delivers the lines of the example unchanged")
+        impl = f"inl ({T.tree_term(res[1])})" if res[0] == "ok" else "inr 1"
+        terms.append(f"({coq_str('t.f90')}, {coq_list(coq_str(l) for l in ex_lines)}, {impl})")
+        cases.append((text, res[0]))
+        chk.count(("text-roundtrip-example", text), nontrivial=True, sample=None)
     out = chk.coq_judge(IMPORTS, "str * list str * (ent + nat)", "judge_text", terms, shard=15)
     if out is None:
         return
+    if ex_lines:
+        chk.obligation("text-roundtrip-example-on-ford", out.get(len(terms) - 1, 0) == 0,
+                       "FORD builds the tree the theorem's example declares")
     chk.traces += len(cases)
     stats["files"] = len(cases)
     for idx, code in sorted(out.items()):
